@@ -15,7 +15,7 @@ WEIRD = ['plain', 'quote " inside', 'back\\slash', 'both "\\" of them',
          'tab\there', 'nl\nhere', 'ünï', '{"k": [1, 2]}', "single ' q",
          '\\"', 'ctrl\x01x', 'end\\']
 WEIRD_TYPES = ['OTU table', 'Pathway "x" table', 'Gene\\table',
-               'Taxon table']
+               'Taxon table', '', ' ', 'null']
 
 
 def decode_biom1(doc):
